@@ -36,10 +36,12 @@ REQUIRED = {
             "swallowed:init": 10, "swallowed:periodic": 10, "propagated": 100, "iterations-after-fault": 500,
             "trace-equals-fault-free-twin": 200, "prefix-equals-fault-free-twin": 100},
     "C10": {"assign-enabled": 500, "reset-checked-at-arrival": 2000, "assign-disabled-dontcare": 50, "sentinel-assign": 50,
-            "fault-in-reset-iteration": 20, "snapshot-checked": 20000},
+            "fault-in-reset-iteration": 20, "snapshot-checked": 20000,
+            "marker-redeclared-in-subclass": 30, "marker-shadowed-by-plain-attribute": 30},
     "C11": {"feedback-value-checked": 5000, "feedback-type-checked": 5000, "raised-getter-unchanged": 20,
             "hint:int": 50, "hint:float": 50, "hint:bool": 50, "hint:str": 50, "hint:int[]": 20, "hint:rot": 20, "hint:none": 50,
-            "explicit-key": 50, "get_-prefix-stripped": 50, "mode:disabled": 200, "mode:test": 100},
+            "explicit-key": 50, "get_-prefix-stripped": 50, "mode:disabled": 200, "mode:test": 100,
+            "same-list-object-mutated": 100},
 }
 ASSUMPTIONS = {p: ["the robot thread is parked at the gate in NotifierDelay.wait() while the harness changes driver-station words and reads NetworkTables (simenv.py)",
                    "on_disable order among components, setup order, feedback order inside an iteration are not specified and are compared as sets"]
@@ -76,9 +78,15 @@ def gen_case(rng, pid, uid):
         c = {"has_setup": rng.random() < 0.7, "has_on_enable": rng.random() < 0.7, "has_on_disable": rng.random() < 0.7,
              "resets": [], "sentinels": [], "feedbacks": [], "inject": []}
         for j in range(rng.choice([0, 1, 1, 2, 3]) if pid == "C10" else rng.choice([0, 0, 1, 2])):
-            c["resets"].append({"attr": f"r{j}", "default": rng.choice(defaults), "inherited": rng.random() < 0.3})
+            r = {"attr": f"r{j}", "default": rng.choice(defaults), "inherited": rng.random() < 0.3}
+            if not r["inherited"] and rng.random() < 0.25:
+                r["base_default"] = rng.choice([d for d in defaults if d != r["default"] or type(d) is not type(r["default"])])
+            c["resets"].append(r)
         if rng.random() < 0.5:
-            c["sentinels"].append({"attr": "keep", "value": rng.choice([11, "s", None])})
+            sn = {"attr": "keep", "value": rng.choice([11, "s", None])}
+            if rng.random() < 0.3:
+                sn["shadowed_marker_default"] = rng.choice([0, "base", False])
+            c["sentinels"].append(sn)
         for j in range(3):
             if rng.random() < p_fb:
                 c["feedbacks"].append(_gen_fb(rng, fbnames, j, uid))
@@ -161,7 +169,8 @@ def _gen_fb(rng, fbnames, j, uid):
         key = rng.choice([f"k{j}{uid}", f"sub{uid}/k{j}", f"get_k{j}{uid}"])
     hint = rng.choice(HINTS)
     return {"name": name, "key": key, "hint": hint, "variant": rng.randrange(3),
-            "nohint_kind": rng.choice(["float", "bool", "str", "int"])}
+            "nohint_kind": rng.choice(["float", "bool", "str", "int"]),
+            "same_object": bool(hint and hint.endswith("[]") and rng.random() < 0.4)}
 
 
 def decl_order(spec):
@@ -528,8 +537,12 @@ def check_resets(spec, run, V, acc):
     for cn, c in comps.items():
         for r in c["resets"]:
             tracked.append((cn, r["attr"], True, r["default"]))
+            if "base_default" in r:
+                V.ev("marker-redeclared-in-subclass")
         for s in c["sentinels"]:
             tracked.append((cn, s["attr"], False, s["value"]))
+            if "shadowed_marker_default" in s:
+                V.ev("marker-shadowed-by-plain-attribute")
     if not tracked:
         return
     idx = {(t[0], t[1]): i for i, t in enumerate(tracked)}
@@ -662,6 +675,8 @@ def check_feedbacks(spec, run, V, acc):
                 if ts not in fam:
                     V.add("C11", "topic-type", f"{path}: topic type {ts!r} for an un-hinted {fb.get('nohint_kind')} value")
                     return
+            if fb.get("same_object"):
+                V.ev("same-list-object-mutated")
             if fb.get("key") is not None:
                 V.ev("explicit-key")
             elif fb["name"].startswith("get_"):
